@@ -257,7 +257,40 @@ def proj(node: Any) -> Any:
         if name in ('_leading_comment', '_trailing_comment', '_eol', '_dedent_mark'):
             continue
         out.append((name, proj(c)))
+    out.extend(_said_values(node))
     return (type(node).__name__, out)
+
+
+def _said_values(node: Any) -> list:
+    """What the model *says* through its computed and value-level getters (plain values only; nodes they
+    return are covered by the raw children): a getter that answers from a stale cache differs from the
+    same getter on the re-parsed text."""
+    import datetime
+    import decimal
+    out = []
+
+    def plain(v: Any) -> Any:
+        if v is None or isinstance(v, (bool, str, int)):
+            return ('v', v)
+        if isinstance(v, decimal.Decimal):
+            return ('dec', str(v))
+        if isinstance(v, datetime.date):
+            return ('date', v.isoformat())
+        return None
+    names = []
+    if isinstance(node, I.SPECIAL_EXPR) or isinstance(node, (models.NumberExpr, models.NumberParenExpr, models.NumberUnaryExpr)):
+        names.append('value')
+    # comment getters are left out as comment ownership is (the projection is about directives, fields, values)
+    names.extend(n for n, m in I.members_of(node).items()
+                 if m.kind.startswith('value_') and m.kind != 'value_opt_indented_string' and 'comment' not in n)
+    for n in names:
+        try:
+            p = plain(getattr(node, n))
+        except (decimal.DecimalException, ZeroDivisionError):
+            p = ('undefined',)
+        if p is not None:
+            out.append(('=' + n, p))
+    return out
 
 
 def comment_lines(root: Any) -> list[str]:
